@@ -350,6 +350,12 @@ impl ScopeStack {
     /// Does nothing if the array element doesn't exist, or the variable isn't an array
     /// variable.
     pub fn unset_element(&mut self, name: &str, index: &str) {
+        // var_mut() creates a placeholder for a name that does not exist; don't let
+        // removing an element of a nonexistent variable create one.
+        if !self.exists(name) {
+            return;
+        }
+
         if let Some(Var::Array(map)) = self.var_mut(self.current(), name) {
             map.remove(index);
         }
